@@ -2,18 +2,38 @@ package main
 
 // Job tables: which harness runs with which bounds for each property / tier.
 
-func rng(h string, lo, hi int, extra ...int) []JobSpec {
-	var out []JobSpec
-	for n := lo; n <= hi; n++ {
-		a := append([]int{n}, extra...)
-		out = append(out, JobSpec{Harness: h, Args: a, CheckComplex: true})
+func J(h string, args ...int) JobSpec { return JobSpec{Harness: h, Args: args, CheckComplex: true} }
+
+// each(h, lists...) = cartesian product of argument lists
+func each(h string, lists ...[]int) []JobSpec {
+	out := []JobSpec{}
+	var rec func(i int, cur []int)
+	rec = func(i int, cur []int) {
+		if i == len(lists) {
+			out = append(out, JobSpec{Harness: h, Args: append([]int(nil), cur...), CheckComplex: true})
+			return
+		}
+		for _, v := range lists[i] {
+			rec(i+1, append(cur, v))
+		}
 	}
+	rec(0, nil)
 	return out
 }
 
-func cat(l ...[]JobSpec) []JobSpec {
+func seq(lo, hi int) []int {
+	var r []int
+	for i := lo; i <= hi; i++ {
+		r = append(r, i)
+	}
+	return r
+}
+
+func l(v ...int) []int { return v }
+
+func cat(ls ...[]JobSpec) []JobSpec {
 	var out []JobSpec
-	for _, x := range l {
+	for _, x := range ls {
 		out = append(out, x...)
 	}
 	return out
@@ -21,16 +41,236 @@ func cat(l ...[]JobSpec) []JobSpec {
 
 var commonAssume = []string{
 	"DBG/WARN/ERR/BUG are empty and DBGon() is false (logging is not the subject); slog is never entered",
-	"bytes.Equal, bytes.IndexByte, strings.Builder.WriteByte/String are executed from engine models; everything else in sipsp and bytescase is the real go/ssa code of the working tree",
-	"inputs are limited to the stated number of symbolic bytes; longer inputs are outside the claim",
-	"the Go runtime's bounds/nil checks are modelled by the engine as proof obligations",
+	"bytes.Equal, bytes.IndexByte, strings.Builder.WriteByte/String, copy and append are executed from engine models; everything else in sipsp and bytescase is the real go/ssa code of /repo's working tree, package init included",
+	"inputs are limited to the stated number of symbolic bytes / window sizes; longer inputs are outside the claim",
+	"the Go runtime's bounds / nil / division checks and explicit panics are proof obligations of the engine; loops are unwound until no state is left (unwinding assertion at 400 header visits)",
+	"branch feasibility: exact per-byte value sets (cubes); multi-byte arithmetic conditions by interval reasoning or the SMT solver; a solver 'unknown' keeps the path (sound); final obligations by a fresh z3 5.1.0 process, 'unknown' = inconclusive (exit 2)",
 }
+
+// adapter id groups (see harness/adapters.go: vParserByID)
+var (
+	idsLoop     = l(0, 1, 2, 3, 4, 22)       // cseq callid uint clen expires skipquoted
+	idsNameAddr = l(6, 7, 8, 9, 10, 20, 21)  // from to contact pai route one-contact one-pai
+	idsHdrLine  = l(11, 12)                  // header line (nil / PHdrVals)
+	idsHeaders  = l(13, 14, 15)              // header block caps (2,2) (1,1) (0,0)
+	idsLists    = l(16, 17, 18, 19)          // contacts caps 2,1,0; pais
+	idsTok      = l(23, 24, 25, 26, 27, 28)  // token param flag sets
+	idsURILists = l(30, 31, 32, 33, 34, 35, 36)
+	idsMsg      = l(40, 41, 42, 43)          // message, flags 0..3, default arrays
+	idsMsgCaps  = l(44, 45, 46)              // message caps (1,1) (0,0) (2,2)
+	tplMsgHdr   = l(1, 2, 3, 4, 5, 6, 7, 8, 9, 10, 12)
+)
 
 func checkDefs() map[string]CheckDef {
 	m := map[string]CheckDef{}
-	m["C02"] = CheckDef{Property: "C02",
-		Quick:    cat(rng("H_C02_cseq", 1, 8)),
-		Thorough: cat(rng("H_C02_cseq", 1, 10)),
-		Bounds:   "fully symbolic buffers", Assume: commonAssume}
+	add := func(id string, quick, thorough []JobSpec, bounds, outside string) {
+		m[id] = CheckDef{Property: id, Quick: quick, Thorough: cat(quick, thorough), Bounds: bounds, Outside: outside, Assume: commonAssume}
+	}
+
+	add("C01",
+		cat(each("H_resume", idsMsg, tplMsgHdr, l(4), l(-1)),
+			each("H_resume", idsMsgCaps, l(3, 11, 12), l(3), l(-1)),
+			each("H_resume", l(40, 44, 45), l(13), l(6), l(-1)),
+			each("H_resume", l(40, 45), l(14), l(5), l(-1)),
+			each("H_chain", l(40, 41), l(13), l(4, 5))),
+		cat(each("H_resume", idsMsg, tplMsgHdr, l(6), l(-1)),
+			each("H_resume", idsMsgCaps, l(3, 4, 11, 12), l(5), l(-1)),
+			each("H_resume", l(40, 44, 45, 46), l(13), l(8), l(-1)),
+			each("H_chain", l(40, 41, 44), l(13), l(6, 7)), each("H_chain", l(40), l(9), l(3)),
+			each("H_resume", l(40), l(0), l(14), l(-1))),
+		"ParseSIPMsg: resumption lemma (one intermediate cut, every cut position, complete object state compared => every chunk schedule by induction) on templates `request/reply line + header + W symbolic bytes + blank line`, W = 4 (quick) / 6 (thorough) for From, To, Contact, PAI, CSeq, Call-ID, Content-Length, Expires, generic header, reply CSeq, multi-header; fully symbolic header block of 5-8 bytes after `A B C CRLF`; flags 0..3; capacities default,(1,1),(0,0),(2,2); plus the all-schedules chain on 4-5 byte windows",
+		"buffers beyond the windows; flags changing between calls; SIPMsgNoMoreDataF (documented end-of-input mode); > 65535 bytes")
+
+	add("C02",
+		cat(each("H_resume", idsLoop, l(0), l(9), l(-1)),
+			each("H_resume", idsNameAddr, l(0), l(7), l(-1)),
+			each("H_resume", idsHdrLine, l(0), l(7), l(-1)),
+			each("H_resume", idsHeaders, l(0), l(6), l(-1)),
+			each("H_resume", idsLists, l(0), l(6), l(-1)),
+			each("H_resume", idsTok, l(0), l(7), l(-1)),
+			each("H_resume", idsURILists, l(0), l(6), l(-1)),
+			each("H_resume", l(5), l(23, 24, 25), l(5), l(-1)),
+			each("H_resume", l(5), l(26, 27), l(4), l(-1)),
+			each("H_resume_at", l(0, 2, 6, 11, 23, 30), l(6), l(1, 2)),
+			each("H_chain", l(0, 1, 2, 6, 8, 11, 23, 30, 34), l(0), l(5)),
+			each("H_resume", l(8, 16, 19), l(18, 19), l(4), l(-1))),
+		cat(each("H_resume", idsLoop, l(0), l(12), l(-1)),
+			each("H_resume", idsNameAddr, l(0), l(9), l(-1)),
+			each("H_resume", idsHdrLine, l(0), l(9), l(-1)),
+			each("H_resume", idsHeaders, l(0), l(8), l(-1)),
+			each("H_resume", idsLists, l(0), l(8), l(-1)),
+			each("H_resume", idsTok, l(0), l(9), l(-1)),
+			each("H_resume", idsURILists, l(0), l(8), l(-1)),
+			each("H_resume", l(5), l(0), l(15), l(-1)),
+			each("H_chain", l(0, 1, 2, 6, 8, 11, 13, 16, 23, 30, 34), l(0), l(7))),
+		"every exported incremental sub-parser: resumption lemma with every cut position on fully symbolic buffers: CSeq/Call-ID/UInt/CLen/Expires/SkipQuoted 9 (12) bytes, name-addr (From, To, Contact, PAI, Route, one-contact, one-PAI) 7 (9), header line 7 (9), header block caps {2,1,0} 6 (8), contact/PAI lists 6 (8), token param (6 flag sets) 7 (9), URI param/header lists caps {2,1,0} 6 (8), first line on templates; start offsets 1 and 2; all-schedules chain at 5 (7) bytes",
+		"POptInputEndF (documented end-of-input mode) is exercised separately in C17; longer inputs")
+
+	add("C03",
+		cat(each("H_premature", idsLoop, l(0), l(9)),
+			each("H_premature", idsNameAddr, l(0), l(8)),
+			each("H_premature", idsHdrLine, l(0), l(8)),
+			each("H_premature", idsHeaders, l(0), l(7)),
+			each("H_premature", idsLists, l(0), l(7)),
+			each("H_premature", idsTok, l(0), l(8)),
+			each("H_premature", idsURILists, l(0), l(7)),
+			each("H_premature", l(5), l(23, 24, 25, 26), l(5)),
+			each("H_premature", l(5), l(0), l(15)),
+			each("H_premature", l(41, 42, 43), tplMsgHdr, l(4)),
+			each("H_premature", l(41, 43), l(13), l(7))),
+		cat(each("H_premature", idsLoop, l(0), l(13)),
+			each("H_premature", idsNameAddr, l(0), l(10)),
+			each("H_premature", idsHdrLine, l(0), l(10)),
+			each("H_premature", idsHeaders, l(0), l(9)),
+			each("H_premature", idsLists, l(0), l(9)),
+			each("H_premature", idsTok, l(0), l(10)),
+			each("H_premature", idsURILists, l(0), l(9)),
+			each("H_premature", l(41, 42, 43), tplMsgHdr, l(6))),
+		"every streaming parser: a definitive verdict on the first n-1 bytes vs. the verdict on n bytes (one-byte extension; any suffix follows by induction inside the bound); fully symbolic n = 7-9 (9-13) bytes, message parser with flags skip-body / clen-required on header templates",
+		"message parser without Content-Length and without skip-body/clen-required (documented exemption: the body is the rest of the buffer); SIPMsgNoMoreDataF, POptInputEndF")
+
+	add("C04",
+		cat(each("H_C04_parse", l(0, 1, 2, 3, 6, 8, 9, 11, 12, 13, 15, 16, 18, 19, 20, 21, 22, 23, 25, 26, 27, 30, 32, 33, 34, 36), l(6)),
+			each("H_C04_parse", l(5), l(15)),
+			each("H_C04_parse", l(40, 43, 45), l(8)),
+			each("H_C04_msg", l(1, 3, 4, 9, 11), l(3), l(-1, 0, 1), l(-1, 0, 1)),
+			each("H_C04_msg", l(13), l(5), l(-1, 0), l(-1, 0)),
+			each("H_C04_msg", l(0), l(10), l(-1), l(-1)),
+			each("H_C04_lookup", seq(0, 6)), each("H_C04_lookup", l(9, 12, 14, 19, 20)),
+			each("H_C04_enums"),
+			each("H_C04_uri", l(3, 4), l(2)),
+			each("H_C04_ip", l(5, 7), l(-1, 0, 3, 4, 16, 20)),
+			each("H_C04_sig", seq(0, 4))),
+		cat(each("H_C04_parse", l(0, 1, 2, 3, 6, 8, 9, 11, 12, 13, 15, 16, 18, 19, 20, 21, 22, 23, 25, 26, 27, 30, 32, 33, 34, 36), l(8)),
+			each("H_C04_msg", l(1, 3, 4, 9, 11), l(5), l(-1, 0, 1), l(-1, 0, 1)),
+			each("H_C04_uri", l(5), l(3)),
+			each("H_C04_ip", l(9), l(-1, 4, 16)),
+			each("H_C04_sig", l(5))),
+		"every exported parse / lookup / compare / relocate / signature entry point on fully symbolic bytes (6-8 bytes, every start offset 0..n, capacities none/0/1, symbolic flags, one symbolic cut): no panic (all run-time checks are obligations), termination (unwinding assertion), returned offsets inside the buffer and not before the start unless error, every reported field dereferencable after any verdict; lookups on names of length 0..20; all enum values. Isolation: the engine records every store to a package-level variable outside init (none allowed); objects are only reachable through the arguments",
+		"actual thread schedules / the race detector (no concurrency in the engine: isolation is argued from the recorded store footprint); inputs longer than the bound")
+
+	add("C05",
+		cat(each("H_C05", l(1, 2, 3, 4, 5, 6, 7, 8, 9, 10, 11, 12), l(4), l(0)),
+			each("H_C05", l(13), l(7), l(0, 1)),
+			each("H_C05", l(14, 16), l(5), l(0))),
+		cat(each("H_C05", l(1, 2, 3, 4, 5, 6, 7, 8, 9, 10, 11, 12), l(6), l(0, 1, 2)),
+			each("H_C05", l(13), l(9), l(0))),
+		"ParseSIPMsg one-shot on templates with a symbolic window of 4 (6) bytes in each header kind, repeated Contact headers (template 11), three-header message (12), fully symbolic 7 (9)-byte header block: containment, first-line order, header order / own-line / trimming, nesting of From/To/CSeq/Call-ID/Contact/PAI sub-fields, body and raw-message extents",
+		"chunked parsing is covered through C01 (same observables); longer messages")
+
+	add("C06",
+		cat(each("H_C06_clen", seq(1, 3), seq(0, 3)), each("H_C06_clen", l(7, 8, 9, 10), l(0, 1)),
+			each("H_C06_noclen", seq(0, 3)),
+			each("H_C06_pipe", l(2, 3), l(2), l(0, 2))),
+		cat(each("H_C06_clen", seq(1, 3), seq(4, 8)), each("H_C06_clen", l(4, 5, 6, 11, 12), l(0, 2)),
+			each("H_C06_pipe", l(4), l(3), l(0, 1, 3))),
+		"skeleton request with Content-Length of 1-10 (12) symbolic digits and 0-3 (8) body bytes, all 8 flag combinations symbolic; no-Content-Length variants; two pipelined messages with symbolic header-value windows",
+		"header blocks other than the skeleton; more than two pipelined messages")
+
+	add("C07",
+		cat(each("H_C07", l(0), l(8), l(0, 1, 2)), each("H_C07", l(0), seq(3, 7), l(2)), each("H_C07", l(15, 16, 17), l(4), l(0, 1, 3))),
+		cat(each("H_C07", l(0), l(9, 10), l(0, 2)), each("H_C07", l(15, 16, 17), l(6), l(1, 3))),
+		"ParseHeaders (no header-specific value parsers) vs. a non-incremental reference tokeniser on fully symbolic blocks of 3-8 (10) bytes and on templates with known header names, capacities 0..3: count, name/value spans, type = literal-table classification, type flags, first-of-type",
+		"blocks longer than the bound; more than 6 headers per block; header-specific value rewriting (C05/C09)")
+
+	add("C08",
+		cat(each("H_C08", l(0), l(14, 15)), each("H_C08", l(23), l(9)), each("H_C08", l(24, 25), l(6)), each("H_C08", l(26, 27), l(4))),
+		cat(each("H_C08", l(0), l(16, 17)), each("H_C08", l(24, 25), l(8))),
+		"ParseFLine vs. a non-incremental reference on fully symbolic lines of 14-15 (17) bytes and templates: 9 symbolic method bytes, symbolic status/reason, symbolic URI/version",
+		"lines longer than the bound")
+
+	add("C09",
+		cat(each("H_C09_shape", l(1, 2, 8, 13), l(0), l(0, 1, 2, 3, 4, 5, 7, 8), l(2)),
+			each("H_C09_shape", l(8), l(0, 1), l(6), l(0)),
+			each("H_C09_shape", l(1, 2, 8, 13), l(1), l(0, 1, 3, 5), l(2)),
+			each("H_C09_list", l(0), l(0, 1, 2, 3), l(1)), each("H_C09_list", l(1), l(0), l(1)),
+			each("H_C09_hdrs", l(1, 2))),
+		cat(each("H_C09_shape", l(1, 2, 8, 13), l(0), l(0, 1, 2, 3, 4, 5, 7, 8), l(4)),
+			each("H_C09_list", l(0), l(0, 2), l(3)), each("H_C09_hdrs", l(5))),
+		"From/To/Contact/PAI values built from 9 shapes (angle / quoted name / token name / bare URI / expires+q / lr / star / quoted tag / two-token name) with class-constrained symbolic components of 2 (4) bytes and symbolic optional LWS (none, SP, HT, fold) at the legal places, directly and through ParseHdrLine; 3-value lists with commas inside quotes and <>; two Contact headers + Expires through ParseHeaders",
+		"values outside the shapes; whitespace inside <>; more than 3 values")
+
+	add("C10",
+		cat(each("H_C10_cseq", seq(1, 21)), each("H_C10_uint", l(0, 1), seq(1, 21)), each("H_C10_status"),
+			each("H_C10_cexp", seq(1, 24)), each("H_C10_q", seq(0, 5)), each("H_C10_port", l(0, 1, 2, 3), seq(1, 8)), each("H_C10_port", l(0), seq(9, 22))),
+		cat(each("H_C10_cseq", seq(22, 40)), each("H_C10_uint", l(0, 1), seq(22, 40)), each("H_C10_cexp", seq(25, 40)), each("H_C10_port", l(0, 1, 3), seq(23, 40))),
+		"every numeric position with all digit strings of length 1..21/24 (40): CSeq, Expires, Content-Length, reply status, Contact expires (saturation), q (6 shapes), URI port (4 carriers); reference = exact 64-bit decimal value of the last 19 digits + leading-zero test",
+		"digit strings longer than 40; chunked numeric parsing is covered by C02")
+
+	add("C11",
+		cat(each("H_offset", l(0, 1, 2, 3, 6, 8, 11, 12, 13, 16, 19, 22, 23, 25, 30, 34), l(0), l(5), l(1, 3, 255, 256, 65530)),
+			each("H_offset", l(5), l(24, 25), l(4), l(1, 256, 65500)),
+			each("H_offset", l(40, 41), l(1, 3, 5, 9), l(3), l(1, 255, 256, 65480))),
+		cat(each("H_offset", l(0, 1, 2, 3, 6, 8, 11, 12, 13, 16, 19, 22, 23, 25, 30, 34), l(0), l(7), l(2, 257, 4096, 65528)),
+			each("H_offset", l(40, 41), l(1, 3, 5, 9), l(5), l(7, 257, 65478))),
+		"same text at offset k vs. offset 0 for the message parser and every stand-alone parser: contents fully symbolic (5/7 bytes or template windows), the two bytes before the text symbolic, k in {1,3,255,256,257,4096, 65535-len-..} (8/16-bit boundaries and the addressing limit)",
+		"k is a finite set, not every value 1..65535-len (universal over contents only); relocation of parsed URIs is C18")
+
+	add("C12",
+		cat(each("H_reset", l(0, 1, 2, 6, 8, 22, 23), l(0), l(4), l(0), l(4)),
+			each("H_reset", l(11, 12, 13, 14, 15), l(0), l(4), l(0), l(4)),
+			each("H_reset", l(16, 17, 18, 19), l(0), l(3), l(0), l(4)),
+			each("H_reset", l(30, 31, 32, 34, 35, 36), l(0), l(4), l(0), l(4)),
+			each("H_reset", l(5), l(23), l(3), l(24), l(3)),
+			each("H_reset", l(40, 44, 45), l(3, 4, 1), l(3), l(9, 3), l(2))),
+		cat(each("H_reset", l(0, 1, 2, 6, 8, 23), l(0), l(5), l(0), l(5)),
+			each("H_reset", l(12, 13, 14, 16, 17, 19, 30, 31, 34, 35), l(0), l(5), l(0), l(4)),
+			each("H_reset", l(40, 44, 45, 46), l(3, 4, 1, 11), l(4), l(9, 3, 5), l(3))),
+		"history A (fully symbolic 3-5 bytes or a header template, abandoned at every symbolic cut incl. complete / failed) -> the type's Reset -> input B (4-5 symbolic bytes / template) vs. a new object with the same caller arrays: complete object state equal after reset (=> histories of any length), same verdict / offset / observables on B; all parser object types incl. caller arrays of capacity 0,1,2",
+		"PsipURI (plain struct assignment), longer inputs")
+
+	add("C13",
+		cat(each("H_C13_msg", l(1, 3, 4, 9, 11, 12), l(3), l(0, 1, -1), l(0, 1, -1), l(0)),
+			each("H_C13_msg", l(3, 11, 12), l(3), l(0, 1), l(0, 1), l(1)),
+			each("H_C13_msg", l(16), l(4), l(0, 1, 2), l(0, 1), l(0)),
+			each("H_C13_params", l(6), l(0, 1, 2)), each("H_C13_hdrs", l(6), l(0, 1, 2))),
+		cat(each("H_C13_msg", l(1, 3, 4, 9, 11, 12), l(5), l(0, 1, 2), l(0, 1, 2), l(0)),
+			each("H_C13_params", l(8), l(0, 1, 2, 3)), each("H_C13_hdrs", l(8), l(0, 1, 2, 3))),
+		"the same symbolic message (templates with 3 (5)-byte windows, multi-header and multi-contact) parsed into arrays of capacity (hcap, ccap) in {none,0,1,2}^2 and into ample arrays, one-shot and with one symbolic cut; URI parameter / header lists of 6 (8) symbolic bytes with capacities 0..3 vs 8",
+		"GetMsgSig capacity behaviour is C19")
+
+	add("C14",
+		cat(each("H_C14", l(0), seq(1, 8)), each("H_C14", l(1, 2), seq(1, 6))),
+		cat(each("H_C14", l(0), l(9, 10)), each("H_C14", l(1, 2), l(7, 8))),
+		"ParseURI on scheme (any letter case, symbolic) + 1..8 (10) fully symbolic bytes: on success the components joined with their delimiters reproduce the input position by position, order, consumed length; error positions inside the input",
+		"tel: texts containing '@' (not a tel number); longer URIs")
+
+	add("C15",
+		cat(each("H_C15_reflexive", seq(1, 6)), each("H_C15_symmetric", l(1, 2, 3), l(2, 3)), each("H_C15_entry", l(1, 2, 3), l(1, 2, 3)),
+			each("H_C15_case", l(1), l(2)), each("H_C15_presence", seq(0, 3))),
+		cat(each("H_C15_reflexive", l(7, 8)), each("H_C15_symmetric", l(4), l(3, 4)), each("H_C15_entry", l(4), l(3, 4)), each("H_C15_case", l(2), l(3))),
+		"URIs = sip: (any case) + up to 6 (8) symbolic bytes each, all 64 skip-flag sets symbolic; precondition (lists parse, no duplicate names) decided with the library's own list parsers; reflexive, symmetric, flag monotonicity, entry-point agreement incl. handed-back URIs, case / order insensitivity on a template, presence rule for user/ttl/method/maddr",
+		"longer URIs; more than 6 parameters")
+
+	add("C16",
+		cat(each("H_C16_hdr", seq(0, 20)), each("H_C16_mth", seq(0, 10)), each("H_C16_round"), each("H_C16_str"), each("H_C16_parse", seq(1, 8), l(0, 1)), each("H_C16_parse", l(12, 14), l(0))),
+		cat(each("H_C16_hdr", seq(21, 24)), each("H_C16_mth", l(11, 12)), each("H_C16_parse", l(19), l(0))),
+		"GetHdrType for every byte string of length 0..20 (24) and GetMethodNo for length 0..10 (12) vs. a linear scan of a literal copy of the table; Name()/String() total; round trip; ParseHdrLine assigns the same classification",
+		"names longer than 24 bytes (only the length test can matter there)")
+
+	add("C17",
+		cat(each("H_C17_tok", l(0), l(6), seq(0, 6)), each("H_C17_tok", l(20), l(4), l(0, 1, 2)), each("H_C17_lists", l(0), l(6), l(0, 1, 3))),
+		cat(each("H_C17_tok", l(0), l(8), seq(0, 6)), each("H_C17_lists", l(0), l(8), l(0, 2))),
+		"ParseTokenParam in its documented loop on 6 (8) fully symbolic bytes for 7 option sets (both separators, ',' '?' end-of-header and end-of-input terminators): every reported name/value is inside the documented character set, stripped, in order, with exactly one '=' between them, complete quoted values, and nothing but LWS / separators lies outside the reported parameters; list wrappers count / classify / accumulate",
+		"POptTokSpTermF lists; longer inputs")
+
+	add("C18",
+		cat(each("H_C18", l(0), seq(1, 7)), each("H_C18", l(1, 2), seq(1, 5))),
+		cat(each("H_C18", l(0), l(8, 9)), each("H_C18", l(1, 2), l(6, 7))),
+		"accepted URIs of scheme + 1..7 (9) symbolic bytes relocated onto every 16-bit (offset, length) target with offset+length <= 65535 (both symbolic words, no sampling); Long/Short/Flat/Truncate views",
+		"longer URIs")
+
+	add("C19",
+		cat(each("H_C19_insert", l(0, 1), seq(0, 6), l(2)), each("H_C19_insert", l(2), l(1), l(1)), each("H_C19_cap", seq(0, 7), l(2)),
+			each("H_C19_cap", l(4, 12), l(4)), each("H_C19_chunk", l(2)), each("H_C19_strsig", seq(0, 4)), each("H_C19_string", seq(0, 8))),
+		cat(each("H_C19_insert", l(0, 1), seq(0, 6), l(4)), each("H_C19_strsig", l(5)), each("H_C19_cap", l(2, 5), l(6))),
+		"requests built from a 6-header skeleton: a header with symbolic value inserted at every position + a repeated From appended (signature unchanged); replies; a header with a symbolic 2-4 byte name and capacities 0..7,12 (same signature or ErrHdrTrunc); every single cut; string signatures on 0-4 (5) symbolic bytes; String() for every documented-shape signature",
+		"header sets other than the skeleton; more than 8 stored headers")
+
+	add("C20",
+		cat(each("H_C20_prefix", seq(1, 9), l(4)), each("H_C20_prefix", l(8), l(0, 3, 5)), each("H_C20_contains", seq(1, 8)), each("H_C20_cid", seq(1, 5))),
+		cat(each("H_C20_prefix", l(10, 11), l(4)), each("H_C20_contains", l(9, 10)), each("H_C20_cid", l(6))),
+		"IP4Prefix on every byte string of length 1..9 (11), ContainsIP4 1..8 (10), GetCallIDSig flags 1..5 (6) vs. a non-incremental reference (four groups of 1-3 digits <= 255, maximal munch)",
+		"longer strings")
 	return m
 }
